@@ -27,7 +27,10 @@
 (*   rs      index of the snapshot server n restored when its process      *)
 (*           started (0 = none): only entries behind it were re-applied    *)
 (*   snap    index of the newest snapshot on server n's disk               *)
-(*   first   first index still present in server n's log store             *)
+(*   first   first index still present in server n's log store: the        *)
+(*           dispatcher READS the entries from lastPublished + 1 out of    *)
+(*           this store; a snapshot compacts it up to (snapshot index -    *)
+(*           configured TrailingLogs), see DoSnapshot                      *)
 (*   ctl     the controller (Raft leader) or "none"                        *)
 (*   disp    dispatcher goroutine of server n: [st, idx, base, lost]       *)
 (*             st   "off"  no goroutine                                    *)
@@ -233,7 +236,11 @@ DoStart(n) ==
   /\ UNCHANGED <<rlog, lp, snap, first, ctl, disp, blocked, pub, dead>>
 
 \* Raft snapshot of the FSM on server n (streams, groups, lastPublished), log
-\* store compacted up to `keep` trailing entries
+\* store compacted up to `keep` trailing entries.  keep = the TrailingLogs the
+\* server configured its Raft node with (raft.go createRaftNode): hashicorp/raft's
+\* default 10240 whatever `clustering.raft.snapshot.threshold` says - compaction
+\* (raft compactLogs) deletes [first, min(snapshot index, last - TrailingLogs)].
+\* It does NOT look at lastPublished (C18_Obtainable is what C18 needs of it).
 DoSnapshot(n, keep) ==
   /\ up[n] /\ Len(rlog) > snap[n]
   /\ snap' = [snap EXCEPT ![n] = Len(rlog)]
@@ -306,6 +313,19 @@ C18_ControllerDispatches == \A n \in Nodes : (ctl = n /\ up[n]) => disp[n].st # 
 Pending == {i \in EligIds(rlog) : i \notin Ids(pub)}
 Idle(n) == up[n] /\ ctl = n /\ ~blocked /\ disp[n].st = "run" /\ ~disp[n].lost /\ disp[n].idx > Len(rlog)
 C18_IdleMeansPublished == \A n \in Nodes : Idle(n) => Pending = {}
+
+\* The dispatcher lists an operation by READING its entry from the Raft log store
+\* (from lastPublished + 1 on); the entry is the only place the operation can be
+\* listed from (a snapshot holds the resulting metadata, not the operations).  An
+\* operation with an event that is committed and not in the stream whose entry is
+\* below the first retained index of a server's log store can never be listed by
+\* that server: at-least-once is lost (and `dispatch` panics on GetLog, on every
+\* restart and new controller - DoDispatchPanic).  Demanded reading (the weaker one):
+\* only operations NOT YET IN THE STREAM must be obtainable - an entry at or below
+\* lastPublished, or one whose event is in the stream and only its record is missing,
+\* may be gone as far as the statement is concerned.
+Obtainable(f) == \A i \in Pending : i >= f
+C18_Obtainable == \A n \in Nodes : Obtainable(first[n])
 
 \* Another cluster (own Raft log, own controller and dispatcher, another
 \* `clustering.namespace`) on the SAME NATS deployment commits an operation and
